@@ -36,6 +36,9 @@ ENGINE_VERSION = 1
 
 
 def scratch_root():
+    root = os.environ.get("TOASTYSIM_SCRATCH")
+    if root and os.path.isdir(root):
+        return root
     base = "/dev/shm" if os.path.isdir("/dev/shm") and os.access("/dev/shm", os.W_OK) else tempfile.gettempdir()
     return base
 
@@ -131,6 +134,12 @@ def _run(mod, ch):
             res = {"harness_error": "%s: %s\n%s" % (type(e).__name__, e, traceback.format_exc())}
     finally:
         sys.stdout, sys.stderr = out_save, err_save
+        os.environ.pop("JPY_PARENT_PID", None)      # set by runs that draw terminal-like progress output
+        try:
+            from .props import common as _common
+            _common.PROGRESS.clear()
+        except Exception:
+            pass
     res["choices"] = list(ch.rec)
     if ch.kinds is not None:
         res["kinds"] = list(ch.kinds)
